@@ -2,9 +2,9 @@
 //! deterministic scheduler.  Every committer runs `commit()` below, a line-by-line copy of the
 //! caller protocol of `Database::execute_small_commit` (src/database/transaction.rs) in which the
 //! WAL is a vector of (batch id, thread, commit number) and a write failure can be injected.
-//! The copy carries the hook sites of the original (401, 402, 403) plus two of its own: 404 between
-//! `take_pending` and the WAL write (a window that exists in the original but has no hook) and
-//! 406 after `fail_batch` (mirrors 306 of `complete_batch`).
+//! The copy carries the hook sites of the original (401, 402, 404, 403) plus one of its own: 406
+//! after `fail_batch` (mirrors 306 of `complete_batch`).  The original itself runs under the
+//! scheduler, on real Database handles, in c38.rs.
 //!
 //!   gen    cases = (programs, schedule, everything observed) for coq/Corr/C37.v
 //!   search the property's oracle only (no model), random schedules, prints FAIL lines
@@ -41,23 +41,10 @@ fn wal_flush(log: &Log, batch: &[Arc<PendingCommit>], wfail: Option<usize>) -> R
     Ok(())
 }
 
-/// the caller protocol of execute_small_commit (from the point where the payload was captured)
-///
-/// Built with `--cfg c37_fixed` (against a tree that has fixes/C37-take-pending-only-as-leader.diff
-/// applied) it is the copy of the REPAIRED protocol instead, and the cases say so (`Case true ..`).
+/// the caller protocol of execute_small_commit (from the point where the payload was captured),
+/// as it is since /repo 77fabcc: only the elected leader calls take_pending
 fn commit(q: &GroupCommitQueue, log: &Log, failed: &Mutex<Vec<u64>>, payload: CommitPayload, wfail: Option<usize>) -> Result<u64, String> {
     sched_point(401);
-    // as in the code: after Ok, take_pending is called unconditionally
-    #[cfg(not(c37_fixed))]
-    let (batch_id, batch) = match q.submit_and_wait(payload) {
-        Ok(batch_id) => {
-            sched_point(402);
-            (batch_id, q.take_pending())
-        }
-        Err(e) => return Err(format!("group commit failed: {}", e)),
-    };
-    // the repair: only the elected leader calls take_pending
-    #[cfg(c37_fixed)]
     let (batch_id, batch) = match q.submit_and_wait_role(payload) {
         Ok((batch_id, is_leader)) => {
             sched_point(402);
@@ -353,7 +340,7 @@ fn case_term(progs: &[Vec<Op>], o: &Obs) -> String {
     let log: Vec<String> = o.log.iter().map(|e| (e.0 + 64 * (e.1 as u64 + 8 * e.2 as u64)).to_string()).collect();
     let res: Vec<String> = o.results.iter().map(|rs| clist(&rs.iter().map(|r| (r.0 as u64 + 8 * (r.1 as u64 + 8 * (r.2 + 64 * r.3 as u64))).to_string()).collect::<Vec<_>>())).collect();
     let failed: Vec<String> = o.failed.iter().map(|x| x.to_string()).collect();
-    format!("Case {} {} {} {} {} {} {} {}", cbool(cfg!(c37_fixed)), clist(&ps), clist(&steps), clist(&log), clist(&res), clist(&failed), cbool(o.drained), o.probe)
+    format!("Case {} {} {} {} {} {} {}", clist(&ps), clist(&steps), clist(&log), clist(&res), clist(&failed), cbool(o.drained), o.probe)
 }
 
 fn kind_of(base: &str, o: &Obs) -> String {
